@@ -7,7 +7,7 @@ from harness import fsm_common as FC
 from supervisor.states import ProcessStates as PS
 
 PROPERTY = 'C03'
-BEHAVIOURS = ['ok', 'exit_expected', 'exit_unexpected', 'backoff_fatal', 'fatal', 'silent']
+BEHAVIOURS = ['ok', 'exit_expected', 'exit_unexpected', 'backoff_fatal', 'fatal', 'silent', 'no_resource']
 
 
 class Monitor:
@@ -51,10 +51,11 @@ class Monitor:
                     if d['app'] == other and d['seq'] > 0:
                         src.check('lower-sequence-applications-done', self.status[q] != 'requested'
                                   and self.status[q] != 'starting' and (self.status[q] != 'idle'
-                                                                        or self.required_failed.get(other)
+                                                                        or self.required_failed.get(other) is not None
                                                                         or self._skipped(q)),
                                   sig=sig, namespec=ns, waiting=q, status=self.status[q])
-        if self.required_failed.get(app):
+        if self.required_failed.get(app) is not None and me['seq'] > self.required_failed[app]:
+            # (the processes of the failed one's own start_sequence are asked together with it)
             sfs = self.apps[app]['sfs']
             src.check('nothing-requested-after-required-failure', sfs == 'CONTINUE', sig=sfs, namespec=ns)
         self.status[ns] = 'requested'
@@ -62,9 +63,20 @@ class Monitor:
     def _skipped(self, q):
         return False
 
+    def _required_failure(self, d):
+        """remembers the lowest start_sequence at which a required process of the application failed"""
+        cur = self.required_failed.get(d['app'])
+        self.required_failed[d['app']] = d['seq'] if cur is None else min(cur, d['seq'])
+
     def on_event(self, ns, state, expected, forced=False):
         d = self.procs.get(ns)
         if d is None:
+            return
+        if forced and self.status[ns] == 'idle':
+            # given up before any request went out (no Supvisors instance can take it: 'No resource available')
+            self.status[ns] = 'failed'
+            if d['required']:
+                self._required_failure(d)
             return
         if self.status[ns] not in ('requested', 'starting'):
             return
@@ -78,7 +90,7 @@ class Monitor:
         elif state in (PS.FATAL, PS.EXITED, PS.STOPPED, PS.UNKNOWN) or forced:
             self.status[ns] = 'failed'
             if d['required']:
-                self.required_failed[d['app']] = True
+                self._required_failure(d)
         # BACKOFF: still starting
 
     def on_host_lost(self, names):
@@ -86,7 +98,7 @@ class Monitor:
             if self.status[ns] in ('requested', 'starting'):
                 self.status[ns] = 'failed'
                 if self.procs[ns]['required']:
-                    self.required_failed[self.procs[ns]['app']] = True
+                    self._required_failure(self.procs[ns])
 
 
 def _drain(core, sim, mon, cursor, behaviours, lost_ids):
@@ -138,7 +150,10 @@ def run(src, napps=1, nprocs=2, behaviours=BEHAVIOURS, rounds=9, auto=True, loss
         for k in range(np_):
             name = f'p{k}'
             host = ids[1] if k == 0 else ids[0]          # the first process of each application lives on the peer
-            core.add_process(host, app_name, name, PS.STOPPED, startsecs=0)
+            beh[f'{app_name}:{name}'] = src.pick(f'{app_name}_{name}_behaviour', list(behaviours))
+            # 'no_resource': the program is disabled on the only instance that knows it - nothing can be requested
+            core.add_process(host, app_name, name, PS.STOPPED, startsecs=0,
+                             disabled=beh[f'{app_name}:{name}'] == 'no_resource')
             p = core.context.applications[app_name].processes[name]
             seq = src.pick(f'{app_name}_{name}_seq', [0, 1, 2])
             we = (k == 0) and src.pick_flag(f'{app_name}_{name}_wait_exit')
@@ -146,7 +161,6 @@ def run(src, napps=1, nprocs=2, behaviours=BEHAVIOURS, rounds=9, auto=True, loss
             adapter.set_rules(p.rules, start_sequence=seq, wait_exit=we, required=req)
             ns = f'{app_name}:{name}'
             procs[ns] = {'app': app_name, 'seq': seq, 'wait_exit': we, 'required': req, 'host': host}
-            beh[ns] = src.pick(f'{app_name}_{name}_behaviour', list(behaviours))
         app = core.context.applications[app_name]
         aseq = src.pick(f'{app_name}_seq', [1, 2] if napps == 1 else [0, 1, 2])
         sfs = src.pick(f'{app_name}_sfs', ['ABORT', 'STOP', 'CONTINUE'])
@@ -195,10 +209,18 @@ def run(src, napps=1, nprocs=2, behaviours=BEHAVIOURS, rounds=9, auto=True, loss
     for app_name, ad in apps.items():
         never_exits = [ns for ns, d in procs.items() if d['app'] == app_name and d['wait_exit']
                        and mon.status[ns] in ('starting', 'requested')]
-        if mon.required_failed.get(app_name) and ad['sfs'] == 'STOP' and not never_exits:
+        if mon.required_failed.get(app_name) is not None and ad['sfs'] == 'STOP' and not never_exits:
             src.reach('stop-strategy')
             running = [n for n, p in core.context.applications[app_name].processes.items() if p.running()]
-            src.check('stop-strategy-stops-the-application', not running, sig='STOP', running=running)
+            # finding F24b: a required process that nobody can take ('No resource available') fails synchronously while
+            # its start_sequence group is being requested; the processes of the same group requested after it escape
+            unplaceable = [d['seq'] for ns, d in procs.items() if d['app'] == app_name and d['required']
+                           and beh[ns] == 'no_resource' and d['seq'] > 0]
+            sibling = any(d['app'] == app_name and d['seq'] in unplaceable and beh[ns] != 'no_resource'
+                          and d['seq'] == min(x['seq'] for x in procs.values() if x['app'] == app_name and x['seq'] > 0)
+                          for ns, d in procs.items())
+            sig = 'STOP:unplaceable-required-process-with-a-sibling-of-its-sequence' if sibling else 'STOP'
+            src.check('stop-strategy-stops-the-application', not running, sig=sig, running=running)
     src.check('no-internal-error', not core.logger.tracebacks(), log=core.logger.tracebacks()[:1])
     src.obs('status', dict(mon.status))
 
